@@ -114,7 +114,7 @@ class Recorder:
 
     @staticmethod
     def _enc(x):
-        return -1 if x is None else x
+        return -1 if x is None else int(x)
 
     def __enter__(self):
         mu = matching_mod()
@@ -130,35 +130,45 @@ class Recorder:
             setattr(mu, name, fn(orig))
 
         def greedy(orig):
-            def f(graph):
-                out = orig(graph)
-                if rec._cur is not None:
-                    rec._cur["ev"].append({"e": "greedy", "mt": [rec._enc(x) for x in out]})
+            def f(*a, **k):
+                out = orig(*a, **k)
+                try:
+                    if rec._cur is not None:
+                        rec._cur["ev"].append({"e": "greedy", "mt": [rec._enc(x) for x in out]})
+                except Exception:
+                    pass                # another helper interface: the step is simply not logged (drift)
                 return out
             return f
 
         def augment(orig):
-            def f(graph, root, matching):
-                out = orig(graph, root, matching)
-                if rec._cur is not None:
-                    if out is None:
-                        rec._cur["ev"].append({"e": "fail", "root": root})
-                    else:
-                        rec._cur["ev"].append({"e": "augment", "root": root, "path": [rec._enc(x) for x in out]})
+            def f(*a, **k):
+                out = orig(*a, **k)
+                try:
+                    root = a[1] if len(a) > 1 else k.get("root")
+                    if rec._cur is not None and isinstance(root, int):
+                        if out is None:
+                            rec._cur["ev"].append({"e": "fail", "root": root})
+                        else:
+                            rec._cur["ev"].append({"e": "augment", "root": root, "path": [rec._enc(x) for x in out]})
+                except Exception:
+                    pass
                 return out
             return f
 
         wrap_helper("_greedy_matching", greedy)
         wrap_helper("_find_augmenting_path", augment)
 
-        def fpm(graph):
+        def fpm(graph, *a, **k):
             outer = rec._cur
-            rec._cur = {"g": [list(a) for a in graph], "ev": []}
+            rec._cur = {"g": [list(x) for x in graph], "ev": []}
             try:
-                out = orig_fpm(graph)
-                rec._cur["ev"].append({"e": "return", "ok": out is not None,
-                                       "mt": [] if out is None else [rec._enc(x) for x in out]})
-                rec.records.append(rec._cur)
+                out = orig_fpm(graph, *a, **k)
+                try:
+                    rec._cur["ev"].append({"e": "return", "ok": out is not None,
+                                           "mt": [] if out is None else [rec._enc(x) for x in out]})
+                    rec.records.append(rec._cur)
+                except Exception:
+                    rec.records.append({"g": rec._cur["g"], "ev": [{"e": "return", "ok": True, "mt": []}], "odd": repr(out)[:200]})
                 return out
             finally:
                 rec._cur = outer
